@@ -168,8 +168,11 @@ impl Prop for C14 {
             cc.only_client = only_client;
             cc.only_network = only_network;
             if cc.max_trace_length > 0 {
-                // sufficient for the selected filter too
-                cc.max_trace_length = 4 * effective_trace(c).len() + 10;
+                // sufficient for the selected filter too; every third case: "no limit" written as usize::MAX
+                cc.max_trace_length = if c.seed % 3 == 0 { usize::MAX } else { 4 * effective_trace(c).len() + 10 };
+                if cc.max_trace_length == usize::MAX {
+                    obs.hit("max_trace_length_usize_max");
+                }
             }
             let mut q = sq.clone();
             let events = if simple { run_simple(&cc, &mut q, &[], &[]) } else { run_advanced(&cc, &mut q, &[], &[]).events };
@@ -231,7 +234,7 @@ impl Prop for C14 {
     }
 
     fn required_classes() -> Vec<&'static str> {
-        vec!["burst_of_equal_timestamps", "eleven_packets_within_100ms", "zero_delay", "hand_built_queue", "sustained_two_way_traffic_over_a_second", "input_with_ignored_padding_lines", "more_than_250000_packets"]
+        vec!["burst_of_equal_timestamps", "eleven_packets_within_100ms", "zero_delay", "hand_built_queue", "sustained_two_way_traffic_over_a_second", "input_with_ignored_padding_lines", "more_than_250000_packets", "max_trace_length_usize_max"]
     }
 
     fn assumptions() -> Vec<&'static str> {
